@@ -205,6 +205,16 @@ func (rw *rewriter) isPkgSel(e ast.Expr, pkgPath, name string) bool {
 	return ok && pn.Imported().Path() == pkgPath
 }
 
+// isAtomicCall: a call of a function of package sync/atomic or of a method of one of its types.
+func (rw *rewriter) isAtomicCall(n *ast.CallExpr) bool {
+	sel, ok := n.Fun.(*ast.SelectorExpr)
+	if !ok {
+		return false
+	}
+	fn, ok := rw.info.Uses[sel.Sel].(*types.Func)
+	return ok && fn.Pkg() != nil && fn.Pkg().Path() == "sync/atomic"
+}
+
 func (rw *rewriter) isBuiltin(e ast.Expr, name string) bool {
 	id, ok := e.(*ast.Ident)
 	if !ok || id.Name != name {
@@ -244,7 +254,7 @@ func (rw *rewriter) file(f *ast.File, constSet map[string]bool) error {
 			rw.counts["import-sync"]++
 		}
 		if p == "sync/atomic" {
-			rw.counts["WARNING-sync/atomic-not-modelled"]++
+			rw.counts["import-sync/atomic (operations get a scheduling point)"]++
 		}
 	}
 	// const -> var
@@ -309,6 +319,23 @@ func (rw *rewriter) file(f *ast.File, constSet map[string]bool) error {
 			}
 			c.Replace(nc)
 		case *ast.CallExpr:
+			if rw.isAtomicCall(n) {
+				switch c.Parent().(type) {
+				case *ast.DeferStmt, *ast.GoStmt:
+					rw.counts["WARNING-atomic-in-defer-or-go-not-instrumented"]++
+				case *ast.ExprStmt:
+					rw.counts["atomic"]++
+					c.Replace(rw.call("AtomicV", &ast.FuncLit{Type: &ast.FuncType{Params: &ast.FieldList{}}, Body: &ast.BlockStmt{List: []ast.Stmt{&ast.ExprStmt{X: n}}}}))
+				default:
+					rw.counts["atomic"]++
+					nc := rw.call("AtomicAfter", n)
+					if t := rw.typeOf(n); t != nil {
+						rw.typeOv[nc] = t
+					}
+					c.Replace(nc)
+				}
+				return true
+			}
 			switch {
 			case rw.isBuiltin(n.Fun, "close") && len(n.Args) == 1:
 				rw.counts["close"]++
